@@ -121,7 +121,7 @@ func (p *Path) getToken(buf Slice, out Iface) bool {
 		return true
 	}
 	ptr := out.V.(Ptr)
-	*ptr = deepCopy(tok.val, map[Ptr]Ptr{})
+	storeInPlace(ptr, deepCopy(tok.val, map[Ptr]Ptr{}))
 	return true
 }
 
@@ -500,7 +500,7 @@ func init() {
 		if !isPtr || !types.Identical(pt.Elem(), tok.typ) {
 			return p.e.ts.False
 		}
-		*out.V.(Ptr) = deepCopy(tok.val, map[Ptr]Ptr{})
+		storeInPlace(out.V.(Ptr), deepCopy(tok.val, map[Ptr]Ptr{}))
 		return p.e.ts.True
 	}
 }
